@@ -154,6 +154,11 @@ def h12_consume_broker(S, backend="redis"):
             dead = br.get_consumer("default", ["job"], None, MessageCategory.DEAD)
             dead.POLLING_WAIT = 0
             out["dead_got"] = await dead.consume_or_none()
+            if out["dead_got"] is not None:
+                # whoever inspects the dead letters and hands one back leaves it there for the next reader
+                await br.reject(out["dead_got"][0])
+                again = await dead.consume_or_none()
+                out["dead_again"] = None if again is None else again[0].id_
         else:
             from fakes import amqp as fa
             br, ch, srv = fa.mk_broker()
@@ -202,6 +207,9 @@ def h12_consume_broker(S, backend="redis"):
         S.check("expired-goes-to-dead-letter", names == ["dead"], info=str(names))
         S.check("expired-stays-retrievable", out["dead_got"] is not None and out["dead_got"][0].id_ == "m1",
                 info=f"dead-category consumer got {out['dead_got']}; dropped: {out.get('dropped_after_dead_read')}")
+        if "dead_again" in out:
+            S.check("expired-stays-retrievable-after-an-inspection", out["dead_again"] == "m1",
+                    info=f"read through DEAD, handed back, read again: {out['dead_again']}")
 
 
 def h12_job(S):
